@@ -93,7 +93,9 @@ impl<'a> Decoder<'a> {
         let container_header = self.buf.read_u32::<BigEndian>()?;
 
         match container_header & CONTAINER_HEADER_TYPE_MASK {
-            SCALAR_CONTAINER_TAG => {
+            // a scalar header carries no count: anything but the exact tag is not `JSONB`,
+            // e.g. `JSON` text starting with a digit, a minus sign or a quote.
+            SCALAR_CONTAINER_TAG if container_header == SCALAR_CONTAINER_TAG => {
                 let encoded = self.buf.read_u32::<BigEndian>()?;
                 let jentry = JEntry::decode_jentry(encoded);
                 self.decode_scalar(jentry)
